@@ -86,7 +86,7 @@ func genC05(rt *rapid.T) C05Case {
 	c.Stock = rapid.IntRange(0, 9).Draw(rt, "stock") == 0
 	c.Capacity = rapid.IntRange(1, 6).Draw(rt, "capacity")
 	c.TTL = rapid.SampledFrom([]int64{0, int64(30 * time.Second), int64(5 * time.Minute)}).Draw(rt, "ttl")
-	kinds := []string{"search", "search", "search", "search", "search", "search", "invalidate", "enable", "disable", "cleanup", "update", "loadmon", "advance", "stats"}
+	kinds := swarmKinds(rt, []string{"search", "search", "search", "search", "search", "search", "invalidate", "enable", "disable", "cleanup", "update", "loadmon", "advance", "stats"}, "search")
 	opGen := rapid.Custom(func(rt *rapid.T) C05Op {
 		op := C05Op{Kind: rapid.SampledFrom(kinds).Draw(rt, "kind")}
 		switch op.Kind {
